@@ -67,6 +67,7 @@ type Cell struct {
 	parent *Cell
 	idx    int
 	obj    *Object
+	view   *Cell // non-nil: this cell is a narrower little-endian scalar view of the low bytes of view
 }
 
 func isAggregate(t types.Type) bool {
@@ -230,6 +231,10 @@ func (p *Path) load(c *Cell) Value {
 }
 
 func (p *Path) loadRaw(c *Cell) Value {
+	if c.view != nil {
+		t := c.view.val.(*Term)
+		return p.ts.Extract(t, int(p.widthOf(c.typ))-1, 0)
+	}
 	if c.kids != nil || isAggregate(c.typ) {
 		a := AggV{elems: make([]Value, len(c.kids))}
 		for i, k := range c.kids {
@@ -246,6 +251,12 @@ func (p *Path) store(c *Cell, v Value) {
 }
 
 func (p *Path) storeRaw(c *Cell, v Value) {
+	if c.view != nil {
+		old := c.view.val.(*Term)
+		w := int(p.widthOf(c.typ))
+		c.view.val = p.ts.Concat(p.ts.Extract(old, int(old.w)-1, w), v.(*Term))
+		return
+	}
 	if c.kids != nil || isAggregate(c.typ) {
 		a, ok := v.(AggV)
 		if !ok || len(a.elems) != len(c.kids) {
